@@ -41,15 +41,6 @@ def validateFeeder (s : State) (feeder val : String) : Option Err :=
 
 /-! ### exchange-rate string parser -/
 
-def isLetter (c : Char) : Bool := c.isAlpha
-def denomChar (c : Char) : Bool := c.isAlphanum || c = '/' || c = ':' || c = '.' || c = '_' || c = '-'
-
-/-- `sdk.ValidateDenom` : `[a-zA-Z][a-zA-Z0-9/:._-]{2,127}` -/
-def validDenom (d : String) : Bool :=
-  match d.toList with
-  | [] => false
-  | c :: cs => isLetter c && cs.all denomChar && decide (2 ≤ cs.length) && decide (cs.length ≤ 127)
-
 /-- `asset.TryNewPair` -/
 def parsePair (s : String) : Option String :=
   match s.splitOn ":" with
